@@ -468,7 +468,7 @@ def run_copies(ctx):
                             or XC.requires_grad != XL.requires_grad or not same(XC, XL):
                         ctx.fail(cc, f"copies: {how} of a {g} {kind} lost class / ltype / requires_grad / data")
                         continue
-                    for name in (("Log", "AdjT", "Act") if ctx.quick else ("Log", "AdjT", "Jinvp", "Act", "Retr")):
+                    for name in (("Log", "Act") if ctx.quick else ("Log", "AdjT", "Jinvp", "Act", "Retr")):
                         fn = progs[name]
                         # interleaved: original, copy, then the copy is updated in place, then both again
                         def gr(Xo, ao):
@@ -623,7 +623,7 @@ def run_sizes(ctx, dtypes=("float64",)):
         for dtype in dtypes:
             for ri, (name, fn) in enumerate(reads(P)):
                 for si, (sx, sy) in enumerate(SIZE_SHAPES + extra):
-                    if ctx.quick and (si + ri + 5 * gi) % 6 != 0:
+                    if ctx.quick and (si + ri + 5 * gi) % 9 != 0:
                         continue          # quick tier: every shape pair meets every read in one of the groups
                     case = {"stream": "sizes", "type": g, "dtype": dtype, "read": name, "shape_X": list(sx), "shape_other": list(sy)}
                     try:
@@ -718,6 +718,8 @@ def run_interleave(ctx, again=False):
     }
     if again:
         orders = {"stride 7, after all other streams": orders["stride 7"]}
+    elif ctx.quick:       # quick: three of the five orders (the poison stream of pass 5 interleaves single-item calls of every operation)
+        orders = {k_: orders[k_] for k_ in ("batch-1 first", "reversed", "stride 7")}
     first = getattr(ctx, "_c04_first", {}) if again else {}
     ctx._c04_first = first
     for oname, order in orders.items():
